@@ -2,8 +2,25 @@
 import json, os
 from ..modules import REGS, PASSFACTS, TEXTFLAGS, TEXTFLAGH, ASMBP
 
-FILES = ["c09.go", "c02.go", "c01.go", "c15.go", "c15gen.go", "gen_passfacts.go"]
+FILES = ["c15.go", "c15gen.go", "gen_passfacts.go"]
 PROPS = ["AvoVerif.Props.C15", "AvoVerif.Props.C15Tables"]
+
+
+def floors(ctx, name, spec):
+    """Lower bounds on the number of JUDGED cases of each stream: a change that silently makes a class of cases
+    drop out (everything refused, nothing bound, printer failing, allocator never on BP) must not pass."""
+    st = ctx.coverage.get("input_distribution", {}).get(name)
+    if st is None:
+        return
+    for key, lo in spec.items():
+        if st.get(key, 0) < lo:
+            ctx.obligation_failures.append((f"{name}: sample floor", f"{key} = {st.get(key, 0)} < {lo} (stats: {json.dumps(st, sort_keys=True)[:2500]})"))
+    # refusals the control experiment cannot attribute to the NOFRAME bit and the explicit pass sequence does not
+    # reproduce must stay rare: otherwise the whole-Compile streams have lost their power
+    for tag in ("compile1", "compileN"):
+        files = st.get(tag + ":files:file", 0) + st.get(tag + ":files:ctx", 0)
+        if st.get(tag + ":refusal_unexplained_by_pass_sequence", 0) * 10 > files:
+            ctx.obligation_failures.append((f"{name}: unexplained refusals", f"{tag}: {st.get(tag + ':refusal_unexplained_by_pass_sequence', 0)} of {files} files refused by pass.Compile although neither the NOFRAME bits nor the explicit pass sequence explain it"))
 
 
 def run(ctx):
@@ -27,48 +44,86 @@ def run(ctx):
         ctx.differential("c15", 0, nontrivial=nt)
         return
     quick = ctx.tier == "quick"
-    ctx.differential("c15", 3000 if quick else 150000, extra=["-exec", "24" if quick else "400", "-execdir", "exec"], nontrivial=nt)
+    n = 3000 if quick else 150000
+    nexec = 24 if quick else 400
+    ctx.differential("c15", n, extra=["-exec", str(nexec), "-execdir", "exec"], nontrivial=nt)
+    # floors for n = 3000 (about a third of what seeds 1..12 give); they scale with n
+    k = n // 3000
+    floors(ctx, "c15", {
+        "ensure_requests": 500 * k, "ensure_clobbered": 150 * k, "allocator_chose_bp": 40 * k, "ensure_frame_ge_2^31": 8 * k,
+        "compile1:judged_functions": 80 * k, "compile1:judged_clobbering": 25 * k, "compile1:judged_text_lines": 80 * k,
+        "compile1:judged_text_lines_with_args": 20 * k, "compile1:judged_refusals": 5 * k, "compile1:allocator_chose_bp": 5 * k,
+        "compileN:judged_functions": 150 * k, "compileN:judged_clobbering": 50 * k, "compileN:judged_multi_function_files": 50 * k,
+        "compileN:judged_text_lines_with_args": 40 * k, "compileN:judged_refusals": 15 * k,
+        "compile1:files:ctx": 30 * k, "compileN:files:ctx": 30 * k,
+        "exec_functions": nexec, "exec_clobbering_bp": nexec // 3, "exec:judged_functions": nexec, "exec_control_detected": 1,
+    })
     if not quick:
         base = ctx.seed
         for k in (1, 2):
             ctx.seed = base * 1000003 + k
             ctx.differential("c15", 50000, extra=["-exec", "200", "-execdir", f"exec{k}"], tag=f"-s{k}", nontrivial=nt)
+            floors(ctx, f"c15-s{k}", {"ensure_requests": 8000, "compileN:judged_functions": 2400, "exec_functions": 200})
         ctx.seed = base
     try:
         ctx.coverage["oracle_AsmBP"] = json.load(open(os.path.join(ctx.dir, "asmbp", "summary.json")))
     except Exception as e:  # the generator failed: already recorded as a broken obligation by regen
         ctx.coverage["oracle_AsmBP"] = {"unavailable": str(e)}
-    ctx.coverage["proof_scope"] = ("proved for all inputs: the pass model (ensureBP / Fn.ensure), its consequences under the assembler's "
-                                   "rule, the save/restore machine model, the acceptor's soundness/completeness, the table facts; "
-                                   "MEASURED (not proved): that the installed assembler follows the modelled rule and that writes through the "
-                                   "BP names are the ones that change BP (kernel-checked against tables regenerated on this run)")
+    ctx.coverage["proof_partial"] = (
+        "DESIGN.md: proof-partial. PROVED for all inputs with 0 <= LocalSize < 2^31: the pass model (ensureBP / Fn.ensure), its "
+        "consequences under the assembler's rule incl. the int32 truncation of the frame (autoffset), the save/restore machine model "
+        "(saved_bp_restored), the acceptor's soundness and completeness against the declarative statement OutcomeOK (acceptBP_iff), "
+        "the table facts; PROVED NEGATIVE: the property fails for LocalSize in [2^31, 2^32) (bp_wrapped_frame_not_saved, finding "
+        "C15-frame-int32); HYPOTHESES of the main theorem C15 (not proved here): BodyOK (the body is stack-balanced and writes nothing "
+        "at or above the top of its frame: C16) and 'a body none of whose declared outputs is a BP register leaves BP alone' (C04); "
+        "MEASURED (not proved): that the installed assembler follows the modelled rule (full grid incl. frames 2^31 and 2^32+8) and that "
+        "writes through the BP names are the ones that change BP (kernel-checked against tables regenerated on this run); pass_order is "
+        "a fact about the list of passes obtained by evaluating pass.Compile's initialiser, the behaviour of Compile itself is exercised "
+        "by the whole-Compile streams")
+    ctx.coverage["proof_scope"] = ctx.coverage["proof_partial"]
     ctx.coverage["rule"] = (
         "generated functions — (a) straight-line register-only functions with 1..16 simultaneously live 64-bit virtuals used in all widths "
-        "(15 live forces the allocator onto BP), (b) the shared random generator of C01 under GP pressure — with author-named writes to "
-        "BPL/BP/EBP/RBP (16 instruction shapes) inserted, attribute sets {0, NOSPLIT, NOFRAME, both} (+ random other bits), LocalSize 0 / "
-        "aligned / unaligned / large via AllocLocal, 0-2 CALLs; through the real LabelTarget, CFG, ZeroExtend32BitOutputs, Liveness, "
-        "AllocateRegisters, BindRegisters, VerifyAllocation and then pass.EnsureBasePointerCalleeSaved; plus a malformed stream (pass run on "
-        "unallocated / not zero-extended functions). `bp`: exact comparison of error / resulting LocalSize with the Lean model (clobbersBP "
-        "over Gen.regs info bits); `accept-bp`: the property on the implementation's outcome with the hardware notion of BP (physical GP "
-        "number 5): clobbered => refused iff NOFRAME, else frame > 0 and both assembler rules (installed, and the older one quoted in "
-        "pass/reg.go) save BP — stated both after the explicit pass sequence and, for a quarter of the functions and the whole execution "
-        "sample, on the outcome of the real pass.Compile (so the position of the pass in Compile is exercised); `accept-bp-exec` MEASURED: "
-        "functions compiled by pass.Compile, printed with printer.NewGoAsm, built with go build and "
-        "called through an assembly trampoline that compares the caller's BP before/after (positive control: a hand-written frameless "
-        "leaf setting BP must be seen to change it). non-trivial = functions that write a view of BP")
+        "(15 live forces the allocator onto BP), (b) the shared random generator under GP pressure — with author-named writes to "
+        "BPL/BP/EBP/RBP (20 instruction shapes, BP as first or second output) inserted, attribute sets {0, NOSPLIT, NOFRAME, both} (+ random "
+        "other bits), LocalSize 0 / aligned / unaligned / large / 2^31..2^33 (the assembler's int32 truncation) via AllocLocal, 0-2 CALLs, "
+        "signatures with 0..32 argument bytes. Every function is rebuilt identically from a seed and sent through: (1) the explicit pass "
+        "sequence LabelTarget, CFG, ZeroExtend32BitOutputs, Liveness, AllocateRegisters, BindRegisters, VerifyAllocation and then "
+        "pass.EnsureBasePointerCalleeSaved: `bp` = exact comparison of error-versus-no-error / resulting LocalSize with the Lean model "
+        "(clobbersBP over Gen.regs info bits; error MESSAGES are not compared), `accept-bp` = the property on the implementation's outcome "
+        "with the hardware notion of BP (physical GP number 5): a refusal only for a clobbering NOFRAME function, else the frame the "
+        "assembler really allocates (int32 truncation) > 0 and both assembler rules (installed, and the older one quoted in pass/reg.go) "
+        "save BP; (2) the real pass.Compile as a one-function file and (3) as one of 2-4 functions of ONE file (mixes of clobbering / not "
+        "clobbering / NOFRAME functions), built directly as ir.File or through build.Context: `accept-bp` per function on the bound "
+        "outputs, the resulting LocalSize AND the size token of the function's printed TEXT line (printer.NewGoAsm, incl. the "
+        "`$frame-args` branch); when Compile refuses a file a control experiment (same file, NOFRAME bits cleared) decides whether the "
+        "NOFRAME bit caused the refusal: if so some NOFRAME function of the file must write BP (judged), if not the refusal is counted as "
+        "not this property's (refused_regardless_of_noframe; cross-checked against the explicit pass sequence, >10% unexplained = broken "
+        "obligation); plus a malformed stream (pass run on unallocated / not zero-extended functions); `accept-bp-exec` MEASURED: functions "
+        "compiled TOGETHER as one file by pass.Compile, printed with printer.NewGoAsm, built with go build and called through an assembly "
+        "trampoline that compares the caller's BP before/after (positive control: a hand-written frameless leaf setting BP must be seen to "
+        "change it; the 2^31-frame witness is executed too). Lower bounds on the judged cases of every stream are obligations (sample "
+        "floors). non-trivial = functions that write a view of BP")
     ctx.assumptions += [
         "declared outputs cover the hardware writes of every instruction form (C04); avo's table has no form with an implicit BP operand "
         "and no LEAVE/ENTER; a CALLed function preserves BP itself",
         "the function body is stack-balanced and writes no stack slot at or above the top of its frame (BodyOK; C16: locals lie inside the frame)",
-        "LocalSize >= 0 (negative AllocLocal sizes are outside the property's quantifier: theorem bp_negative_frame_not_saved shows why) "
-        "and the frame is a multiple of 8 whenever the assembler is to accept the function (it rejects unaligned frames: nothing is emitted)",
-        "the assembler's rule (asmSavesBP) is a hand-written model of cmd/internal/obj/x86/obj6.go preprocess; it is MEASURED against the "
-        "installed toolchain on the full grid {0,NOSPLIT,NOFRAME,both} x {0,8,16,4096} x {leaf,call} on every run (theorem asm_rule_measured); "
-        "the prologue/epilogue machine model (runFn) is modelled-not-verified beyond that measurement",
+        "0 <= LocalSize < 2^31 (explicit hypothesis of bp_saved / C15 / acceptBP_complete). Negative AllocLocal sizes are outside the "
+        "property's quantifier (theorem bp_negative_frame_not_saved shows why). The upper bound is NOT granted by the quantifier: the "
+        "assembler truncates the frame to int32, avo accepts AllocLocal(1<<31) silently and BP is lost — recorded as finding "
+        "C15-frame-int32 / C15-frame-int32-exec (theorems bp_wrapped_frame_not_saved, asm_wrapped_frame_measured); frames within 16 bytes "
+        "below 2^31 make the assembler fail loudly ('overflow in spadj': nothing is emitted); the frame is a multiple of 8 whenever the "
+        "assembler is to accept the function (it rejects unaligned frames: nothing is emitted)",
+        "the assembler's rule (asmSavesBP, autoffset) is a hand-written model of cmd/internal/obj/x86/obj6.go preprocess; it is MEASURED "
+        "against the installed toolchain on the full grid {0,NOSPLIT,NOFRAME,both} x {0,8,16,4096,2^31,2^32+8} x {leaf,call} on every run "
+        "(theorem asm_rule_measured); the prologue/epilogue machine model (runFn) is modelled-not-verified beyond that measurement",
         "hasCall = the function contains a CALL instruction (avo emits no DUFFCOPY/DUFFZERO)",
+        "a refusal by pass.Compile that persists with the NOFRAME bits cleared (allocation failure, malformed operands, …) is not the "
+        "refusal the property speaks about: nothing is emitted; such files are counted, not judged",
     ]
     ctx.trusted += [
         "Oracle.asmBP / asmBPWrites: go build (assembler + linker) and the host CPU, observed through the trampoline of harness/c15gen.go; "
         "one child process per grid case, controls that do not touch BP must report 'preserved'",
-        "Gen.regs is produced by calling the compiled reg package's own API; Gen.compileOrder by go/ast over pass/pass.go",
+        "Gen.regs is produced by calling the compiled reg package's own API; Gen.compileOrder by evaluating the initialiser of pass.Compile "
+        "(harness/gen_passfacts.go)",
+        "the parse of the printed TEXT line (last comma-separated field of the line starting `TEXT ·name(SB)`) in harness/c15.go",
     ]
